@@ -283,6 +283,13 @@ func (run *Run) Finish(ff *FindingsFile, floors []Floor) int {
 	}
 	writeJSON(filepath.Join(evDir, run.Property+".json"), ev)
 
+	if os.Getenv("VERIF_DUMP") != "" { // development aid: list every obligation
+		for _, r := range run.Results {
+			for _, ob := range r.Obls {
+				fmt.Printf("  [%s] %s @%s: %s\n", ob.Status, ob.Key, ob.Pos, ob.Detail)
+			}
+		}
+	}
 	for _, n := range run.FixtureNotes {
 		fmt.Println("fixture:", n)
 	}
